@@ -240,6 +240,8 @@ def run(prop, tier, seed):
         run_hook_level(prop, tier, seed, R)
         run_process_level(prop, tier, seed, R)
     elif prop == "C09":
+        import searchmc
+        searchmc.run(prop, tier, R)
         run_hook_level(prop, tier, seed, R)
     return R
 
